@@ -415,6 +415,7 @@ package bundle
 //@   loop 1:
 //@     invariant !failed(cw) && cw.w == w && accepted(cw) - wrapped(cw) == 0 - old(accepted(w))
 //@     invariant forall i int :: 0 <= i && i < len(sections) ==> sections[i] != nil
+//@     invariant[index-first-responses-last] len(sections) >= 2 && sections[0] == iface(is) && sections[len(sections) - 1] == iface(rs)
 
 // Response.EncodeHeader: the ":status" pseudo field and one entry per header
 // field go through the sorted, duplicate-refusing map encoder into a private
